@@ -24,15 +24,18 @@ TolSame == 2           \* 1e-12: bit-identical inputs to the same core function
 TolRe == 10000         \* 1e-8 : batch may switch algorithm branch (cel / cel_iter) or re-derive inputs
 
 \* T: [l][m][k][p] -> <<x, y, z>> of q12;  single[l][k]: [m][p] -> <<x, y, z>> (path axis possibly shorter)
-ElemOK(T, single, l, m, k, p, tol) ==
+\* Tolerance: bit-identical inputs to the same core function only if (a) no cel-based algorithm switch can occur (`same`) and
+\* (b) the single call tiles the same paths as the batch (equal path axis) - tiling re-normalises orientation quaternions.
+TolFor(T, single, l, k, same) == IF same /\ Len(single[l][k]) = Len(T[l]) THEN TolSame ELSE TolRe
+ElemOK(T, single, l, m, k, p, same) ==
     LET s == single[l][k]
         ms == Min(m, Len(s))
-    IN \A c \in 1..3 : Close12(T[l][m][k][p][c], s[ms][p][c], tol)
-ElementIndependence(T, single, tol) ==
-    \A l \in 1..Len(T) : \A m \in 1..Len(T[l]) : \A k \in 1..Len(T[l][m]) : \A p \in 1..Len(T[l][m][k]) : ElemOK(T, single, l, m, k, p, tol)
-FirstBadElement(T, single, tol) ==
+    IN \A c \in 1..3 : Close12(T[l][m][k][p][c], s[ms][p][c], TolFor(T, single, l, k, same))
+ElementIndependence(T, single, same) ==
+    \A l \in 1..Len(T) : \A m \in 1..Len(T[l]) : \A k \in 1..Len(T[l][m]) : \A p \in 1..Len(T[l][m][k]) : ElemOK(T, single, l, m, k, p, same)
+FirstBadElement(T, single, same) ==
     CHOOSE q \in {<<l, m, k, p>> : l \in 1..Len(T), m \in 1..Len(T[1]), k \in 1..Len(T[1][1]), p \in 1..Len(T[1][1][1])} :
-         ~ElemOK(T, single, q[1], q[2], q[3], q[4], tol)
+         ~ElemOK(T, single, q[1], q[2], q[3], q[4], same)
 
 \* a*x1 + b*x2 - x = 0 limb-wise (a, b small integers)
 LinRes(x, x1, x2, a, b) == <<a * x1[1] + b * x2[1] - x[1], a * x1[2] + b * x2[2] - x[2]>>
